@@ -23,6 +23,15 @@ def family(tier, rnd):
                         hes = [rnd.choice(hes)]
                     for he in hes:
                         P.append(chain_prog(depth, rk, sw, list(hks), he))
+    # the raise point inside an expression position of every statement kind (the statement is abandoned half-way:
+    # whatever it had opened - loop scope, operands, the half-made call - must be gone after the handler)
+    for depth in (0, 1, 2):
+        for rk in ("thr", "idx", "div", "cust"):
+            for sw in EXPR_SITES:
+                if depth == 0 and sw == "ret-value": continue
+                for hks in ([["match"]] if depth == 0 else [["none"] * depth + ["match"], ["match"] + ["none"] * depth, ["none"] * (depth - 1) + ["match", "nomatch"]]):
+                    for he in (["ret", "noret"] if tier != "quick" or depth < 2 else ["ret"]):
+                        P.append(chain_prog(depth, rk, sw, list(hks), he))
     # special sites: constructor, handler block faulting, method on object with 其 of the caller, two handlers same class
     def add(tag, p):
         p["tag"] = tag; P.append(p)
@@ -57,7 +66,7 @@ def run(ctx):
     samples = [dict(tag=p["tag"], source=res[p["id"]].get("src"), spec_result=vecs[p["id"]]["res"], spec_display=vecs[p["id"]]["out"]) for p in pick]
     cov = dict(traces_validated_against_impl=stats["programs"] - stats["skipped"], samples=samples,
                evaluations=stats["programs"], distinct_nontrivial=len(set(p["tag"] for p in progs)),
-               rule="raise kind {抛出异常, 抛出 custom class, index out of range, division by zero} x raise depth 0..3 x site {plain, in 每当, in 遍历, in 如果} "
+               rule="raise kind {抛出异常, 抛出 custom class, index out of range, division by zero} x raise depth 0..3 x site {plain, in 每当, in 遍历, in 如果; inside the target expression of 遍历, the condition of 每当 / 如果 / 再如, a call argument, a declaration, a list literal, an 输出 value} "
                     "x handler placement per frame {none, matching, non-matching, non-matching then matching} x handler ending {输出, none, raises again}, "
                     "each followed by probes (caller local, second identical call, callee local must be undefined); plus constructor / handler-fault / "
                     "receiver-restoration / recursion programs. The ZnEval machine (TLC) gives the expected statement trace, call depth at every "
